@@ -1151,12 +1151,25 @@ def run(chk: core.Check):
                 "diagonal / anti-diagonal / scalar / identity / real 2-mode Unitary blocks, monomial 3-mode blocks, "
                 "identity and swap PERMs - every kind in every run - with an exactly diagonal non-scalar block between "
                 "two mixing components, for every engine and query, fresh and long-lived, tensors and step by step; "
-                "(e) every query is asked a second time on the same object after all kinds of queries were served")
+                "(e) every query is asked a second time on the same object after all kinds of queries were served; "
+                "(f) sessions: scripts of set_circuit / set_input_state / set_mask(masks, n: none, 0, equal, above, "
+                "below the photon number; ' ' and '*' wildcards; one or two masks) / clear_mask / all_prob() / "
+                "all_prob(input) / prob_distribution() / evolve() given to ONE object of Naive, SLOS, SLAP, MPS "
+                "(second circuit of the same or another size, mask before / after the input, inputs of two photon "
+                "numbers served from the same object, no mask operation between the two circuits, one illegal "
+                "operation at the end of a fifth of the scripts) against the Lean state machine of the configuration "
+                "glue (iterator cache keyed by the photon number, mask object, SLOS _fsas/_state_mapping resets, SLAP "
+                "_fock_space): every bulk answer = the states the current configuration prescribes with the exact "
+                "probabilities of the current circuit, exceptions at the same operation")
     chk.assumptions = ["the circuit's matrix is the one compute_unitary() reports (C01/C14 cover it)",
                        "StateVector results (evolve) are compared with absolute tolerance 5e-6: the container drops "
                        "components below 1e-6 and renormalises (after every component in the step-by-step simulator); "
                        "amplitudes and probabilities from prob_amplitude/probability/prob_distribution/all_prob use 1e-9",
-                       "native kernels of exqalibur are external: the model for them is the specification itself"]
+                       "native kernels of exqalibur are external: the model for them is the specification itself",
+                       "sessions: xq.FSMask(m, n, masks) keeps the states whose deficit to the digits fits in n minus "
+                       "their photon number, nothing when they have more than n photons (swept exhaustively against "
+                       "the extension for m <= 3, n <= 3, mask n <= 4 when the model was written; compared on every "
+                       "run); the session ends at the first exception (nothing is claimed about the object afterwards)"]
     chk.required_branches = ["mask", "mask-drops-states", "bunched-input", "reused-instance", "reused-instance-mask-without-n", "reused-instance-mask-other-photon-number", "stepper-perm-not-involution", "engine:Naive", "engine:SLOS",
                              "engine:SLAP", "engine:MPS", "engine:Stepper", "one-mode", "mps-tensor2", "mps-tensor2-bunched",
                              "mps-tensor2-nonsymmetric", "mps-tensor1", "stepper-steps", "stepper-steps-perm",
